@@ -10,6 +10,8 @@ TECH = "deterministic simulation with fault injection (seeded schedule/fault sea
 CHECKS = {
  "C03": ("repl", "exploration", "Seeded search over histories and pull schedules of 2-4 real nodes; after a fault-free heal phase all members must hold identical content, logs and query results, a further round must transfer nothing, winners must be acknowledged versions.",
          "Faults: connection cuts at any message, interleaved sessions, crash/restart, clock skew and jumps; no message loss inside a live stream (QUIC excludes it). Open known findings (multi-entity summary blindness; references added with a losing source version) are reported as KNOWN-FINDING; the single-entity / non-concurrent-reference space is checked in full."),
+ "C08": ("serve", "exploration", "An honest server with 2-4 rooms and a requester whose membership differs per room and changes while connected, talking to the server's real connection services; every request kind before/after the identity proof and the room list, naming rooms and rows of rooms it does and does not belong to; every answer is decoded and must only carry data of rooms the requester is a member of at the server's date.",
+         "Membership is read from the server's in-memory room (is_user_valid_at). The requester answers the server's own requests with errors."),
  "C09": ("repl", "exploration", "At every recomputation barrier on every node: no mark left, counts and daily hashes recomputed by independent harness code from the stored rows, the whole log (chained hash included) equal to a from-scratch rebuild by the real compute() over the same rows, equal content <=> equal logs across nodes.",
          "The chained hash is checked metamorphically (function of content), never re-implemented. 'Different rows or deletion records => different logs' is evaluated on rows and deletion records (references are not part of the log by design)."),
  "C11": ("repl", "exploration", "After every step, on every node, no row or reference is stored at the deleted or an older version while that node holds its deletion record; after heal the row is absent and the record present everywhere.",
@@ -26,8 +28,10 @@ CHECKS = {
          "The two implementations are each other's oracle. Inherits the open summary-blindness finding for writes touching a second entity of the last day."),
  "C13": ("crash", "exploration", "One node under the batch gate and 15 writer fault points x {statement error once, sticky, crash in transaction}: every operation is entirely present or absent, acknowledged operations survive the fault and a restart, failed ones leave nothing, the log is consistent after the start-up recomputation, and a fault-free request is served after a transient error.",
          "Statement-level injection inside the real write functions (the shipped ROLLBACK handling runs; a COMMIT failure is produced for real with a deferred foreign-key violation). In-process crash = writer thread dies inside the open transaction and the node restarts on the same files; torn pages / power loss are out of reach (no VFS seam)."),
- "C20": ("lock", "exploration", "The real RoomLockService actor under seeded message schedules (requests, repeated and overlapping requests, releases, stray and double unlocks, connection ends, receivers dropped while waiting): a room is held by at most one connection, at most `limit` rooms at once, grants only for pending requests, and after the last fault every pending request of a live connection is granted once the holders release.",
-         "Abstract, well-behaved clients own the reply channels; the behaviour of the real connection loop at disconnection is exercised separately (conn engine) when registered. 40 schedules per child process (the actor does not iterate hash maps)."),
+ "C19": ("trust", "exploration", "Real connection loops and a real PeerManager per node: invitations created, accepted (also tampered), used, re-offered and offered after restarts between honest nodes relayed message by message; an adversary holding only its own identities answers the identity challenge in 8 ways on the token of an allowed peer or of an invitation; the victim may bind a key, send Ready, report connected, consume an invitation or serve rooms only after a proof of the expected key on this connection's challenge; token(a,b)=token(b,a).",
+         "The election between two QUIC connections of one pair is not simulated (needs quinn objects)."),
+ "C20": ("lock,trust", "exploration", "The real RoomLockService actor under seeded message schedules (requests, repeated and overlapping requests, releases, stray and double unlocks, connection ends, receivers dropped while waiting): a room is held by at most one connection, at most `limit` rooms at once, grants only for pending requests, and after the last fault every pending request of a live connection is granted once the holders release.",
+         "Two engines: (a) abstract well-behaved clients on the real lock actor (40 schedules per child process); (b) the real LocalPeerService connection loop against a scripted remote that disappears at three exit points, followed by a probe client that must obtain every room."),
  "C18": ("crash,repl", "exploration", "Subscriber subscribed before the run; mutations, deletions, streams, room mutations and recomputation passes grouped into chosen transactions through the batch gate, plus batches ingested by real pulls: every acknowledged change must be covered by a DataChanged (room, entity, day) or RoomModified event.",
          "No requirement on which event or how many. The 16-slot broadcast is drained at every settle so the harness never lags."),
 }
@@ -55,7 +59,9 @@ def main():
      "rights":"2-4 identities sharing rooms; room histories, every operation shape, barriered pulls, clock skew; independent rights model as oracle",
      "byz":"honest victim(s) facing a scripted Byzantine peer / man-in-the-middle on the simulated transport",
      "phase":"read / validate+sign / write phases of 2-3 mutations on one row under a seeded scheduler",
-     "lock":"real RoomLockService actor under seeded message schedules; real LocalPeerService loops against scripted remotes",
+     "lock":"real RoomLockService actor under seeded message schedules with abstract clients",
+     "serve":"honest server facing a requester of varying membership through the real connection services",
+     "trust":"real connection loops + real PeerManager per node; honest relayed handshakes, invitations, and a scripted adversary on the identity challenge; connection-end lock scenarios",
      "model":"data-model version sequences at run time and at restart, hash-order seeds varied",
      "chaos":"hostile inputs and messages as injected faults on a live node; health oracle",
     }
